@@ -18,6 +18,7 @@
 #include <sys/stat.h>
 
 #include <chrono>
+#include <deque>
 #include <filesystem>
 #include <fstream>
 #include <iostream>
@@ -49,6 +50,14 @@ struct world
     std::vector<std::string> names;
     sqlite3* conn = nullptr;
     bool want_raw = false, want_rep = false, auto_reopen = false, want_stmts = false, sweep = false, noobs = false, crash = false;
+    // flag "conn2" (library on disk): a second database object loaded from the same directory while the first stays open;
+    // operations marked "via": 2 go through it (their handles are looked up by id in it), and it is observed after every call
+    std::optional<dj::database> db2;
+    sqlite3* conn2 = nullptr;
+    bool want_conn2 = false;
+    int via = 1;                         // connection of the operation being executed
+    std::deque<dj::crate> scratch_c;     // handles looked up in the second connection for one operation
+    std::deque<dj::track> scratch_t;
     bool locks = false;   // lock sweep (library on disk): every call is first attempted while another connection holds a lock
     bool u8 = false;   // name tokens of the model are given to the library as names with multi-byte UTF-8 characters
     bool dead = false;  // rest of this execution is skipped
@@ -217,6 +226,53 @@ json observe(world& w)
     return o;
 }
 
+// The same state as the SECOND connection sees it: every structural query, through handles looked up afresh.
+json observe2(world& w)
+{
+    json o;
+    auto& db = *w.db2;
+    auto all = db.crates();
+    o["all"] = ids_of(all);
+    o["roots"] = ids_of(db.root_crates());
+    json cr = json::array();
+    for (auto& c : all)
+    {
+        json r;
+        r["id"] = c.id();
+        r["v"] = c.is_valid();
+        r["nm"] = dec_text(w, c.name());
+        auto p = c.parent();
+        r["par"] = p ? json::array({p->id()}) : json::array();
+        r["ch"] = ids_of(c.children());
+        r["de"] = ids_of(c.descendants());
+        r["tr"] = tids_of(c.tracks());
+        cr.push_back(std::move(r));
+    }
+    o["cr"] = cr;
+    auto tracks = db.tracks();
+    o["tracks"] = tids_of(tracks);
+    json tk = json::array();
+    for (auto& t : tracks)
+    {
+        json r;
+        r["id"] = t.id();
+        r["v"] = t.is_valid();
+        if (w.v2)
+            r["in"] = "unsupported";
+        else
+            r["in"] = ids_of(t.containing_crates());
+        tk.push_back(std::move(r));
+    }
+    o["tk"] = tk;
+    // handles of the first connection to entities removed through either connection
+    json stale = json::array();
+    for (size_t i = 1; i < w.ch.size(); ++i)
+        if (w.ch[i] && !db.crate_by_id(w.ch[i]->id()))
+            stale.push_back({{"id", w.ch[i]->id()}, {"v", w.ch[i]->is_valid()}});
+    o["stale"] = stale;
+    return o;
+}
+
 // Raw table projection through the independent reader.
 json raw_state(world& w)
 {
@@ -331,12 +387,21 @@ void start_world(world& w, const json& r)
         w.db = dj::engine::create_temporary_database(w.schema);
     }
     w.conn = shim::last_db();
+    w.want_conn2 = r.value("conn2", false) && w.mode == "disk";
+    if (w.want_conn2)
+    {
+        w.db2 = dj::engine::load_database(w.dir);
+        w.conn2 = shim::last_db();
+    }
 }
 
 void end_world(world& w)
 {
     w.ch.clear();
     w.th.clear();
+    w.scratch_c.clear();
+    w.scratch_t.clear();
+    w.db2.reset();
     w.db.reset();
     if (!w.dir.empty())
     {
@@ -361,11 +426,23 @@ std::string expand_name(const std::string& s)
     return s;
 }
 
+dj::database& DB(world& w) { return w.via == 2 && w.db2 ? *w.db2 : *w.db; }
+
 dj::crate& C(world& w, const json& op, const char* key)
 {
     int64_t i = op.at(key).get<int64_t>();
     if (i <= 0 || (size_t)i >= w.ch.size() || !w.ch[(size_t)i])
         throw missing_handle{};
+    if (w.via == 2 && w.db2)
+    {
+        // the same crate as the second connection sees it (a handle whose crate is gone is used as it is)
+        auto c = w.db2->crate_by_id(w.ch[(size_t)i]->id());
+        if (c)
+        {
+            w.scratch_c.push_back(*c);
+            return w.scratch_c.back();
+        }
+    }
     return *w.ch[(size_t)i];
 }
 dj::track& T(world& w, const json& op, const char* key)
@@ -373,6 +450,15 @@ dj::track& T(world& w, const json& op, const char* key)
     int64_t i = op.at(key).get<int64_t>();
     if (i <= 0 || (size_t)i >= w.th.size() || !w.th[(size_t)i])
         throw missing_handle{};
+    if (w.via == 2 && w.db2)
+    {
+        auto t = w.db2->track_by_id(w.th[(size_t)i]->id());
+        if (t)
+        {
+            w.scratch_t.push_back(*t);
+            return w.scratch_t.back();
+        }
+    }
     return *w.th[(size_t)i];
 }
 
@@ -396,22 +482,33 @@ void observation_phase(world& w, json& rec)
     }
     int chg0 = sqlite3_total_changes(w.conn);
     shim::begin_call();
-    json o;
-    auto oc = vh::guarded("observe", [&] { o = observe(w); });
+    json o, ob2;
+    auto oc = vh::guarded("observe", [&] {
+        o = observe(w);
+        if (w.db2)
+            ob2 = observe2(w);
+    });
     if (!oc.ok)
     {
         rec["obs_throw"] = {{"ex", oc.ex}, {"std", oc.std_exc}, {"msg", oc.msg}};
         w.dead = true;
         return;
     }
+    if (w.db2)
+        rec["obs2"] = ob2;
     json o16;
     o16["w"] = shim::n_writes();
     o16["chg"] = sqlite3_total_changes(w.conn) - chg0;
     if (w.want_rep)
     {
         json o2;
-        auto oc2 = vh::guarded("observe2", [&] { o2 = observe(w); });
-        o16["rep"] = oc2.ok && o2 == o;
+        json ob3;
+        auto oc2 = vh::guarded("observe2", [&] {
+            o2 = observe(w);
+            if (w.db2)
+                ob3 = observe2(w);
+        });
+        o16["rep"] = oc2.ok && o2 == o && ob3 == ob2;
         o16["w"] = shim::n_writes();
         o16["chg"] = sqlite3_total_changes(w.conn) - chg0;
         o16["same"] = rr.digest() == d0;
@@ -444,6 +541,9 @@ void close_handles(world& w, std::vector<int64_t>& cids, std::vector<int64_t>& t
         c.reset();
     for (auto& t : w.th)
         t.reset();
+    w.scratch_c.clear();
+    w.scratch_t.clear();
+    w.db2.reset();
     w.db.reset();
     shim::reset_dbs();
 }
@@ -472,6 +572,19 @@ void open_handles(world& w, const std::vector<int64_t>& cids, const std::vector<
     rec["loaded"] = vh::name_of(loaded);
     rec["ver"] = w.db->version_name();
     w.conn = shim::last_db();
+    if (w.want_conn2)
+    {
+        auto oc2 = vh::guarded("load_database(2)", [&] { w.db2 = dj::engine::load_database(w.dir); });
+        if (!oc2.ok)
+        {
+            rec["out"] = "throw";
+            rec["ex"] = oc2.ex;
+            rec["std"] = oc2.std_exc;
+            w.dead = true;
+            return;
+        }
+        w.conn2 = shim::last_db();
+    }
     for (size_t i = 1; i < cids.size(); ++i)
         if (cids[i])
         {
@@ -555,6 +668,11 @@ void exec_op(world& w, const json& op)
     rec["e"] = "call";
     rec["op"] = name;
     const bool probe = op.value("probe", false);
+    w.via = w.db2 ? op.value("via", 1) : 1;
+    w.scratch_c.clear();
+    w.scratch_t.clear();
+    if (w.db2)
+        rec["via"] = w.via;
     if (probe)
         rec["probe"] = true;   // an unmodelled call (stale handle, extreme argument): judged for safety only (C15)
     int64_t newid = 0;
@@ -567,7 +685,7 @@ void exec_op(world& w, const json& op)
             auto n = enc_name(w, ntok);
             rec["n"] = ntok;
             f = [&w, n, &newid] {
-                auto c = w.db->create_root_crate(n);
+                auto c = DB(w).create_root_crate(n);
                 newid = c.id();
                 w.ch.push_back(c);
             };
@@ -580,7 +698,7 @@ void exec_op(world& w, const json& op)
             rec["n"] = ntok;
             rec["after"] = a.id();
             f = [&w, n, &a, &newid] {
-                auto c = w.db->create_root_crate_after(n, a);
+                auto c = DB(w).create_root_crate_after(n, a);
                 newid = c.id();
                 w.ch.push_back(c);
             };
@@ -642,7 +760,7 @@ void exec_op(world& w, const json& op)
         {
             auto& c = C(w, op, "c");
             rec["c"] = c.id();
-            f = [&w, &c] { w.db->remove_crate(c); };
+            f = [&w, &c] { DB(w).remove_crate(c); };
         }
         else if (name == "create_track")
         {
@@ -659,7 +777,7 @@ void exec_op(world& w, const json& op)
             f = [&w, path, &newid] {
                 dj::track_snapshot s;
                 s.relative_path = path;
-                auto t = w.db->create_track(s);
+                auto t = DB(w).create_track(s);
                 newid = t.id();
                 w.th.push_back(t);
             };
@@ -668,7 +786,7 @@ void exec_op(world& w, const json& op)
         {
             auto& t = T(w, op, "t");
             rec["t"] = t.id();
-            f = [&w, &t] { w.db->remove_track(t); };
+            f = [&w, &t] { DB(w).remove_track(t); };
         }
         else if (name == "add_track")
         {
